@@ -99,7 +99,36 @@ def regenerate_tables():
     return digest_info
 
 
-def build(jobs=16):
+def regenerate_kernels():
+    """ regenerates coq/Gen/K_<group>_gen.v from the current source; only rewrites on change.
+        Returns {kernel name: {source, status, sha | reason, group}} """
+    sys.path.insert(0, os.path.join(VERIF, "translator"))
+    import kernels  # type: ignore
+    import kernels_defs  # type: ignore
+    groups = kernels_defs.groups()
+    out = kernels.generate(REPO, groups, {g: kernels_defs.TYPES for g in groups}, kernels_defs.HEADERS)
+    info = {}
+    for group, (text, kinfo) in out.items():
+        path = os.path.join(COQ, "Gen", f"K_{group}_gen.v")
+        old = open(path).read() if os.path.exists(path) else None
+        if old != text:
+            with open(path, "w") as handle:
+                handle.write(text)
+        for name, entry in kinfo.items():
+            info[name] = dict(entry, group=group)
+    return info
+
+
+def tie_groups(prop):
+    sys.path.insert(0, os.path.join(VERIF, "translator"))
+    import kernels_defs  # type: ignore
+    return [g for g, props in kernels_defs.PROPS.items() if prop in props]
+
+
+KERNEL_INFO = {}
+
+
+def build(jobs=16, prop=None):
     """ tables + full .vo build + extraction + driver, under an exclusive lock.
         Returns (checker_cmd, tables_info).  Raises BuildError. """
     os.makedirs(os.path.join(COQ, "Gen"), exist_ok=True)
@@ -110,6 +139,8 @@ def build(jobs=16):
             info = regenerate_tables()
         except Exception as exc:  # fail closed: a table that can no longer be read is a broken tie
             raise BuildError("table regeneration from source failed", repr(exc))
+        KERNEL_INFO.clear()
+        KERNEL_INFO.update(regenerate_kernels())   # fails closed per kernel: see translator/kernels.py
         cmds = []
         if not os.path.exists(os.path.join(COQ, "Makefile")) or \
                 os.path.getmtime(os.path.join(COQ, "Makefile")) < os.path.getmtime(os.path.join(COQ, "_CoqProject")):
@@ -118,11 +149,16 @@ def build(jobs=16):
             cmds.append(cmd)
             if code:
                 raise BuildError("coq_makefile failed", out)
-        cmd = f"timeout 1500 make -j{jobs}"
+        # -k: a file of ANOTHER property (or a tie file, judged separately) that no longer compiles must not stop this one
+        cmd = f"timeout 1500 make -k -j{jobs}"
         code, out = sh(cmd, cwd=COQ)
         cmds.append(cmd)
         if code:
-            raise BuildError("coq build failed (a proof obligation or the model no longer checks)", out[-6000:])
+            needed = ["Extract.vo"] + ([f"{prop}/Theorems.vo"] if prop else [])
+            code2, out2 = sh(f"timeout 1500 make -j{jobs} " + " ".join(needed), cwd=COQ)
+            if code2 or not prop:
+                raise BuildError("coq build failed (a proof obligation or the model no longer checks)",
+                                 (out2 if prop else out)[-6000:])
         model = os.path.join(OCAML, "model.ml")
         if not os.path.exists(model):
             raise BuildError("extraction produced no model.ml", out[-2000:])
@@ -313,7 +349,7 @@ class Check:
     # -- standard steps
     def build_and_audit(self):
         try:
-            self.checker_cmd, self.tables_info = build()
+            self.checker_cmd, self.tables_info = build(prop=self.prop)
         except BuildError as exc:
             self.violation("broken-obligation", exc.what, {"theorem_or_correspondence": "coq build", "log": exc.log})
             return False
@@ -321,6 +357,7 @@ class Check:
         if bad:
             self.violation("broken-obligation", "forbidden vernacular in the development", {"found": bad})
             return False
+        self.check_ties()
         self.audit = audit_theorems(self.prop)
         self.checker_cmd += " ; " + self.audit["cmd"]
         if not self.audit["ok"]:
@@ -332,6 +369,30 @@ class Check:
                 self.violation("broken-obligation", f"theorem {thm['name']} depends on axioms {thm['axioms']}",
                                {"theorem_or_correspondence": thm["name"], "axioms": thm["axioms"]})
         return True
+
+    def check_ties(self):
+        """ the tie lemmas between this property's model and the kernels regenerated from the current source
+            (coq/Tie/Tie_<group>.v over coq/Gen/K_<group>_gen.v).  A tie that no longer checks is a broken
+            obligation; the model itself still builds, so the search for a failing input goes on. """
+        groups = tie_groups(self.prop)
+        mine = {k: v for k, v in KERNEL_INFO.items() if v["group"] in groups}
+        report = {"groups": groups, "kernels": mine, "ties_checked": [], "ties_broken": []}
+        self.extra["regenerated_kernels"] = report
+        for group in groups:
+            cmd = f"timeout 900 make Tie/Tie_{group}.vo"
+            code, out = sh(cmd, cwd=COQ)
+            self.checker_cmd += " ; " + cmd
+            if code == 0:
+                report["ties_checked"].append(f"Tie/Tie_{group}.v")
+                continue
+            report["ties_broken"].append(f"Tie/Tie_{group}.v")
+            gone = [f"{k} ({v['source']}: {v.get('reason', '')})" for k, v in mine.items()
+                    if v["group"] == group and v["status"] != "translated"]
+            what = (f"tie between the model and the source no longer checks: Tie/Tie_{group}.v over the kernels "
+                    f"regenerated from /repo" + (f"; not translatable any more: {'; '.join(gone)}" if gone else ""))
+            self.violation("broken-obligation", what,
+                           {"theorem_or_correspondence": f"Tie/Tie_{group}.v", "log": out[-3000:],
+                            "kernels": {k: v for k, v in mine.items() if v["group"] == group}})
 
     def crosscheck_vm(self, cases, outs, k=None):
         """ a sample of the driver's answers is recomputed inside Coq by vm_compute """
@@ -370,6 +431,7 @@ class Check:
                 for t in audit["theorems"]),
             "extraction with ExtrOcamlBasic directives only (Z, positive, nat stay extracted inductives), OCaml 4.13.1, ocaml/driver.ml; cross-checked against vm_compute on a sample each run",
             "translator/tables.py (constant tables regenerated from /repo on every run)",
+            "translator/kernels.py + kernels_defs.py (arithmetic / decision kernels regenerated from /repo on every run into coq/Gen/K_*_gen.v; the attribute and call tables of kernels_defs.py, the rational reading of float comparisons and the textual pins of skipped statements are trusted; the tie lemmas coq/Tie/Tie_*.v are checked by the kernel)",
             "hand-written Gallina models of the anchored Python functions, tied to /repo by the correspondence run of this check (harness/*.py: generators, adapters, canonicalisers)",
         ] + list(trusted_extra)
         coverage = {
